@@ -143,6 +143,8 @@ pub struct PCtx<'a> {
     pub lifetime: &'a str,
     /// does the enclosing definition declare a lifetime parameter (printed as `lifetime`)?
     pub self_has_lifetime: bool,
+    /// write std types with a leading path (`::std::vec::Vec<T>`, `core::option::Option<T>`)
+    pub qualified: bool,
     /// prefix for references to definitions ("" inside the program root, "super::" style handled by `use`)
     pub spaced: bool,
 }
@@ -180,18 +182,18 @@ impl TE {
                     format!("({})", xs.iter().map(|x| x.rust(c)).collect::<Vec<_>>().join(", "))
                 }
             }
-            TE::Vec(a) => g("Vec", vec![a.rust(c)]),
+            TE::Vec(a) => g(if c.qualified { "::std::vec::Vec" } else { "Vec" }, vec![a.rust(c)]),
             TE::VecDeque(a) => g("VecDeque", vec![a.rust(c)]),
-            TE::Box(a) => g("Box", vec![a.rust(c)]),
+            TE::Box(a) => g(if c.qualified { "std::boxed::Box" } else { "Box" }, vec![a.rust(c)]),
             TE::Rc(a) => g("Rc", vec![a.rust(c)]),
             TE::Arc(a) => g("Arc", vec![a.rust(c)]),
             TE::Ref(a) => format!("&'static {}", a.rust(c)),
-            TE::Option(a) => g("Option", vec![a.rust(c)]),
+            TE::Option(a) => g(if c.qualified { "core::option::Option" } else { "Option" }, vec![a.rust(c)]),
             TE::Result(a, b) => g("Result", vec![a.rust(c), b.rust(c)]),
             TE::CowStr => g("Cow", vec!["'static".into(), "str".into()]),
             TE::CowSlice(a) => g("Cow", vec!["'static".into(), format!("[{}]", a.rust(c))]),
             TE::Cow(a) => g("Cow", vec!["'static".into(), a.rust(c)]),
-            TE::Map(a, b) => g("BTreeMap", vec![a.rust(c), b.rust(c)]),
+            TE::Map(a, b) => g(if c.qualified { "::std::collections::BTreeMap" } else { "BTreeMap" }, vec![a.rust(c), b.rust(c)]),
             TE::Set(a) => g("BTreeSet", vec![a.rust(c)]),
             TE::Heap(a) => g("BinaryHeap", vec![a.rust(c)]),
             TE::Compact(0) => g("Compact", vec!["()".into()]),
@@ -266,6 +268,9 @@ pub struct FieldD {
     pub docs: Vec<DocLine>,
     /// print the type with extra whitespace
     pub spaced: bool,
+    /// print std types with their full path
+    #[serde(default)]
+    pub qualified: bool,
 }
 
 #[derive(Clone, Copy, Debug, PartialEq, Eq, Hash, Serialize, Deserialize)]
@@ -285,6 +290,9 @@ pub struct VariantD {
     /// source text of an explicit discriminant and its value
     pub discriminant: Option<(String, u8)>,
     pub docs: Vec<DocLine>,
+    /// spelling of the `#[codec(index = ..)]` literal: decimal, hex, suffixed, binary, underscored
+    #[serde(default)]
+    pub index_style: u8,
 }
 
 #[derive(Clone, Debug, PartialEq, Eq, Hash, Serialize, Deserialize)]
@@ -440,7 +448,7 @@ fn print_fields(shape: Shape, fs: &[FieldD], c: &PCtx, indent: &str, is_struct: 
             for f in fs {
                 print_docs(&f.docs, &format!("{indent}    "), out);
                 field_attrs(f, out, &format!("{indent}    "));
-                let cc = PCtx { defs: c.defs, self_name: c.self_name.clone(), self_params: c.self_params.clone(), lifetime: c.lifetime, self_has_lifetime: c.self_has_lifetime, spaced: f.spaced };
+                let cc = PCtx { defs: c.defs, self_name: c.self_name.clone(), self_params: c.self_params.clone(), lifetime: c.lifetime, self_has_lifetime: c.self_has_lifetime, qualified: f.qualified, spaced: f.spaced };
                 out.push_str(&format!("{indent}    {}{}: {},\n", if is_struct { "pub " } else { "" }, f.name.as_deref().unwrap_or("f"), f.ty.rust(&cc)));
             }
             out.push_str(&format!("{indent}}}"));
@@ -453,7 +461,7 @@ fn print_fields(shape: Shape, fs: &[FieldD], c: &PCtx, indent: &str, is_struct: 
             for f in fs {
                 print_docs(&f.docs, &format!("{indent}    "), out);
                 field_attrs(f, out, &format!("{indent}    "));
-                let cc = PCtx { defs: c.defs, self_name: c.self_name.clone(), self_params: c.self_params.clone(), lifetime: c.lifetime, self_has_lifetime: c.self_has_lifetime, spaced: f.spaced };
+                let cc = PCtx { defs: c.defs, self_name: c.self_name.clone(), self_params: c.self_params.clone(), lifetime: c.lifetime, self_has_lifetime: c.self_has_lifetime, qualified: f.qualified, spaced: f.spaced };
                 out.push_str(&format!("{indent}    {}{},\n", if is_struct { "pub " } else { "" }, f.ty.rust(&cc)));
             }
             out.push_str(&format!("{indent})"));
@@ -493,7 +501,7 @@ pub fn print_def_opt(defs: &[Def], i: usize, with_typeinfo: bool) -> String {
         out.push_str(&format!("{}    #[allow(unused_imports)] use crate::prelude::*;\n", "    ".repeat(k)));
     }
     let ind = "    ".repeat(depth);
-    let c = PCtx { defs, self_name: Some(d.name.clone()), self_params: d.params(), lifetime: if d.lifetime { "'a" } else { "'static" }, self_has_lifetime: d.lifetime, spaced: false };
+    let c = PCtx { defs, self_name: Some(d.name.clone()), self_params: d.params(), lifetime: if d.lifetime { "'a" } else { "'static" }, self_has_lifetime: d.lifetime, qualified: false, spaced: false };
     let mut item = String::new();
     print_docs(&d.docs, &ind, &mut item);
     let mut derives = if with_typeinfo { vec!["Clone", "TypeInfo"] } else { vec!["Clone"] };
@@ -539,11 +547,23 @@ pub fn print_def_opt(defs: &[Def], i: usize, with_typeinfo: bool) -> String {
             item.push_str(&format!("{ind}pub enum {}{} {{\n", d.name, gens));
             for v in vs {
                 print_docs(&v.docs, &format!("{ind}    "), &mut item);
-                if v.skip {
+                // the two codec attributes of a variant in either order
+                let skip_first = v.index_style & 0x40 == 0;
+                if v.skip && skip_first {
                     item.push_str(&format!("{ind}    #[codec(skip)]\n"));
                 }
                 if let Some(ix) = v.index {
-                    item.push_str(&format!("{ind}    #[codec(index = {ix})]\n"));
+                    let lit = match v.index_style % 6 {
+                        1 => format!("0x{ix:02x}"),
+                        2 => format!("{ix}u8"),
+                        3 => format!("0b{ix:b}"),
+                        4 => format!("{}_{}", ix / 10, ix % 10),
+                        _ => format!("{ix}"),
+                    };
+                    item.push_str(&format!("{ind}    #[codec(index = {lit})]\n"));
+                }
+                if v.skip && !skip_first {
+                    item.push_str(&format!("{ind}    #[codec(skip)]\n"));
                 }
                 item.push_str(&format!("{ind}    {}", v.name));
                 print_fields(v.shape, &v.fields, &c, &format!("{ind}    "), false, &mut item);
@@ -726,7 +746,7 @@ impl Program {
     }
 
     pub fn root_ctx(&self) -> PCtx<'_> {
-        PCtx { defs: &self.defs, self_name: None, self_params: vec![], lifetime: "'static", self_has_lifetime: false, spaced: false }
+        PCtx { defs: &self.defs, self_name: None, self_params: vec![], lifetime: "'static", self_has_lifetime: false, qualified: false, spaced: false }
     }
 
     /// the complete program text. `values`: also generate values (roots must then be encodable)
@@ -880,14 +900,14 @@ pub fn expect_for(defs: &[Def], i: usize, args: &[TE], docs_feature: bool) -> Ex
         _ => docs_feature,
     };
     let docs = |ds: &[DocLine]| if capture { expected_doc_lines(ds) } else { vec![] };
-    let c = PCtx { defs, self_name: Some(d.name.clone()), self_params: d.params(), lifetime: "'static", self_has_lifetime: d.lifetime, spaced: false };
+    let c = PCtx { defs, self_name: Some(d.name.clone()), self_params: d.params(), lifetime: "'static", self_has_lifetime: d.lifetime, qualified: false, spaced: false };
     let fields = |fs: &[FieldD], shape: Shape| -> Vec<ExpField> {
         fs.iter()
             // neither skipped nor PhantomData in this instantiation
             .filter(|f| !f.attr.skip && !f.ty.subst(args, &self_ty).is_phantom())
             .map(|f| ExpField {
                 name: if shape == Shape::Named { meta_field_name(f) } else { None },
-                type_name_squashed: squash(&f.ty.rust(&c)),
+                type_name_squashed: squash(&f.ty.rust(&PCtx { defs, self_name: c.self_name.clone(), self_params: c.self_params.clone(), lifetime: "'static", self_has_lifetime: c.self_has_lifetime, qualified: f.qualified, spaced: false })),
                 docs: docs(&f.docs),
             })
             .collect()
